@@ -386,10 +386,10 @@ Qed.
 Lemma rep_toks_at_rep r pos : rep_toks (rep_of_digits r) (rep_toks_at r pos).
 Proof. destruct r as [ds|]; cbn [rep_of_digits rep_toks_at]; [apply rt_some; reflexivity|apply rt_none]. Qed.
 
-Lemma lay_gflat_of_units : forall xs,
-  Forall (fun x => forall pos, unit_toks false (fst (lay_unit pos (fst x))) (snd (lay_unit pos (fst x)))) xs ->
+Lemma lay_gflat_of_units jsx : forall xs,
+  Forall (fun x => forall pos, unit_toks jsx (fst (lay_unit pos (fst x))) (snd (lay_unit pos (fst x)))) xs ->
   swf_with swf_unit xs ->
-  forall pos, gflat false (fst (lay_stmt pos xs)) (snd (lay_stmt pos xs)).
+  forall pos, gflat jsx (fst (lay_stmt pos xs)) (snd (lay_stmt pos xs)).
 Proof.
   induction xs as [|[u o] xs' IH]; intros HF Hwf pos; [apply gf_nil|].
   inversion HF as [|x l Hu Hr]; subst. cbn [fst] in Hu.
@@ -400,7 +400,7 @@ Proof.
     intros Hg. apply Hgo. destruct u; [discriminate|reflexivity].
 Qed.
 
-Theorem lay_unit_toks : forall u, swf_unit u -> forall pos, unit_toks false (fst (lay_unit pos u)) (snd (lay_unit pos u)).
+Theorem lay_unit_toks jsx : forall u, swf_unit u -> forall pos, unit_toks jsx (fst (lay_unit pos u)) (snd (lay_unit pos u)).
 Proof.
   induction u as [n r|body r IH] using sunit_ind'; intros Hwf pos.
   - cbn [lay_unit fst snd]. apply ut_elem. apply item_block.
@@ -411,7 +411,7 @@ Proof.
     pose proof (swf_units body Hbody) as Hall. rewrite Forall_forall in *. intros x Hx pos'. apply (IH x Hx), (Hall x Hx).
 Qed.
 
-Theorem lay_stmt_gflat xs : swf xs -> forall pos, gflat false (fst (lay_stmt pos xs)) (snd (lay_stmt pos xs)).
+Theorem lay_stmt_gflat jsx xs : swf xs -> forall pos, gflat jsx (fst (lay_stmt pos xs)) (snd (lay_stmt pos xs)).
 Proof.
   intros Hwf. apply lay_gflat_of_units; [|exact Hwf].
   pose proof (swf_units xs Hwf) as Hall. rewrite Forall_forall in *. intros x Hx pos. apply lay_unit_toks, (Hall x Hx).
